@@ -62,7 +62,8 @@ def demo(sid):
         root = patched_copy(sid) if label == 'changed' else mutants.make_copy()
         try:
             env = dict(os.environ, PYTHONPATH=os.path.join(root, 'src'), PYTHONDONTWRITEBYTECODE='1')
-            p = subprocess.run(['/venv/bin/python', demo_file], env=env, cwd=root, stdout=subprocess.PIPE,
+            shutil.copy(demo_file, os.path.join(root, 'DEMO.py'))
+            p = subprocess.run(['/venv/bin/python', os.path.join(root, 'DEMO.py')], env=env, cwd=root, stdout=subprocess.PIPE,
                                stderr=subprocess.STDOUT, text=True, timeout=600)
             out[label] = p.returncode
             print('%s demo on the %s tree: exit %d' % (sid, label, p.returncode))
